@@ -545,7 +545,24 @@ impl Sim {
             cl.flag.in_poll.store(true, Ordering::SeqCst);
             let w = Waker::from(cl.flag.clone());
             let mut cx = Context::from_waker(&w);
-            let r = catch_unwind(AssertUnwindSafe(|| fut.as_mut().poll(&mut cx)));
+            // Who owns a future decides when it is dropped after a panic: a spawned task's future is dropped after the
+            // unwind was caught; a future awaited inside another future lives in that future's frame and is dropped
+            // WHILE the panic unwinds (std::thread::panicking() is true in its Drop). Even callers are frame-owned.
+            struct FrameOwned<'a>(&'a mut Option<CallFut>, bool);
+            impl Drop for FrameOwned<'_> {
+                fn drop(&mut self) {
+                    if self.1 && std::thread::panicking() {
+                        drop(self.0.take());
+                    }
+                }
+            }
+            let frame_owned = c % 2 == 0;
+            let _ = fut;
+            let slot = &mut cl.fut;
+            let r = catch_unwind(AssertUnwindSafe(|| {
+                let g = FrameOwned(slot, frame_owned);
+                g.0.as_mut().unwrap().as_mut().poll(&mut cx)
+            }));
             cl.flag.in_poll.store(false, Ordering::SeqCst);
             cl.polls += 1;
             let selfw = cl.flag.self_woken.load(Ordering::SeqCst);
